@@ -34,6 +34,9 @@ Proof.
   - apply IH in H. destruct H; split; auto; lia.
 Qed.
 
+Lemma nth_error_Some_lt {A} (l : list A) i x : nth_error l i = Some x -> i < length l.
+Proof. intros H. apply nth_error_Some. congruence. Qed.
+
 (** ** The transition system *)
 
 Definition pc_at (s : state) (i : tid) (p : pc) : Prop := nth_error (pcs s) i = Some p.
@@ -445,7 +448,7 @@ Proof.
   { intros s0 I0 p Hp. unfold step, step_gen. rewrite Hp.
     destruct p as [| |x|x|x|x]; try (destruct (kmap s0)); cbn;
       try (eexists; split; [eapply nth_upd_same; eauto | cbn; lia]).
-    exists (Acked x). split; auto. cbn; lia. }
+    all: exists (Acked x); split; [auto | cbn; lia]. }
   destruct Hex as [p0 Hp0].
   assert (Hn : forall n s0 p, Inv s0 -> nth_error (pcs s0) i = Some p -> dist p <= n ->
              exists p', nth_error (pcs (run (repeat i n) s0)) i = Some p' /\ dist p' = 0).
@@ -511,13 +514,13 @@ Proof.
     apply nth_error_Some_lt in Hin. lia.
   - intros Hi. unfold later_set. rewrite Hmap. apply in_set_of.
     apply (inv_acked _ I). auto.
-  - apply timestamps_follow_map.
+  - apply timestamps_follow_map. fold s.
     unfold no_inserted. apply forallb_forall. intros p Hp.
     apply In_nth_error in Hp as [j Hj].
     assert (j < k).
     { assert (length (pcs s) = k) by (unfold s, run; rewrite run_length; cbn; apply repeat_length).
       apply nth_error_Some_lt in Hj. lia. }
-    specialize (Hsame j H). unfold pc_at in Hsame. fold s in Hj. rewrite Hj in Hsame.
+    specialize (Hsame j H). unfold pc_at in Hsame. rewrite Hj in Hsame.
     inversion Hsame; auto.
 Qed.
 
@@ -567,7 +570,7 @@ Lemma legacy_overwrite_refuted :
     is_acked s i = true /\
     exists m, later_lookup s = Some m /\ ~ In i (later_set s) /\ returned s i <> Some m.
 Proof.
-  exists legacy_witness, 0. cbn. split; [reflexivity|].
+  exists legacy_witness, 0. vm_compute. split; [reflexivity|].
   exists 1. repeat split; auto. discriminate.
 Qed.
 
